@@ -109,6 +109,7 @@ def run(ctx):
         rec = json.load(open(path))
         it = item_of(repo, fd, rec["prog"], rec["script"], "corpus:" + os.path.basename(path), bool(rec.get("late_reads")))
         it["expect_key"] = rec.get("key")
+        it["no_struct"] = bool(rec.get("no_struct"))
         items.append(it)
     n_corpus = len(items)
 
@@ -117,6 +118,7 @@ def run(ctx):
     kinds = {}
     depths = {}
     n_late = 0
+    n_stale = 0
     for _ in range(n_prog):
         prog, script = g.program()
         sa.stmt_kinds(prog, kinds)
@@ -135,6 +137,17 @@ def run(ctx):
         else:
             subsets = sorted({0, (1 << len(cuts)) - 1, rng.getrandbits(len(cuts)), rng.getrandbits(len(cuts))})
         masks = [sum(1 << cuts[j] for j in range(len(cuts)) if (sub >> j) & 1) for sub in subsets]
+        sc_ = sa.stale_cuts(stmts)
+        if sc_:
+            # a register outcome used as an operand by a LATER subroutine (behavioural oracle only)
+            p = sa.with_flush_mask(stmts, 1 << rng.choice(sc_))
+            try:
+                it_ = item_of(repo, fd, p, script, "register-outcome-across-flush")
+                it_["no_struct"] = True
+                items.append(it_)
+                n_stale += 1
+            except sa.IllFormed:
+                pass
         for m in masks:
             p = sa.with_flush_mask(stmts, m)
             if p == prog:
@@ -143,8 +156,16 @@ def run(ctx):
                 items.append(item_of(repo, fd, p, script, "flush-mask"))
             except sa.IllFormed:
                 pass
+    # register outcomes handed from one subroutine to the next: measurements into registers in every
+    # block, conditions and additions on outcomes of earlier blocks (behavioural oracle only)
+    for _ in range(40 if quick else 400):
+        prog, script = sa.gen_handover(rng)
+        it_ = item_of(repo, fd, prog, script, "register-outcome-across-flush", late=rng.random() < 0.5)
+        it_["no_struct"] = True
+        items.append(it_)
+        n_stale += 1
     ctx.coverage["stream"] = dict(base_programs=n_prog, cases=len(items), corpus=n_corpus, statement_kinds=kinds,
-                                  late_read_cases=n_late,
+                                  late_read_cases=n_late, register_outcome_across_flush_cases=n_stale,
                                   depth_histogram=depths)
     for it in items:
         k = sa.stmt_kinds(it["prog"])
